@@ -17,7 +17,7 @@ Sample3000 == 3000
 Export == (phase = "generated" /\ RandomElement(1..SampleOneIn) = 1) =>
   PrintT(<<"F", [f \in Frags |-> [on |-> defs[f].on, inl |-> defs[f].inl, spreads |-> SetToSortSeq(defs[f].spreads, <)]],
            [k \in DOMAIN ops |-> [i \in DOMAIN ops[k] |-> [T |-> ops[k][i].T, fs |-> SetToSortSeq(ops[k][i].fs, <)]]],
-           SetToSortSeq(unpacked, <), SetToSortSeq(mixins, <), order,
+           SetToSortSeq(unpacked, <), SetToSortSeq(mixins, <), order, nm,
            [k \in DOMAIN opBases |-> [i \in DOMAIN opBases[k] |->
                LET cts == SetToSeq(DOMAIN opBases[k][i]) IN
                [j \in 1..Len(cts) |-> <<cts[j], SetToSortSeq(opBases[k][i][cts[j]], <)>>]]]>>)
